@@ -372,6 +372,8 @@ def main():
         if not q:
             exact_brackets(chk, 72, 2)
     float_solver(chk, 36 if q else 600)
+    from props.c08 import shared_statistics_sequence
+    shared_statistics_sequence(chk)
     grid_rows(chk, 48 if q else 480)
     chk.cov["rule"] = ("exact: 12 cells x ratios {1,1/3,2,7/2,1/10,10} x random (variance, n, effect, alpha, target), the "
                        "bracket passed to brentq; float: real solver, all cells x 8 ratios x with/without covariate")
